@@ -271,6 +271,7 @@ def run(ctx):
     ctx.rule('C04-R2', 'number syntax: ".0" is appended iff the %g text has no float marker the parser knows (\'.\', \'e\'); hex form is 0x/-0x + digits and the parser\'s gate tests \'0\',\'x\'; digit loops never reject', 5)
     ctx.rule('C04-R3', 'option -> escape mode mapping and one-character constants agree with the parser\'s literals', 7)
     ctx.rule('C04-R4', 'variant exhaustiveness: 7 alternatives; serialize / operator= / operator<=> handle indices 0..6 and use the accessor / get<k> of their own index; as_X returns the alternative named X', 30)
+    ctx.rule('C04-R7', 'container texts by evaluation (E-TABLE): the empty, nested, compact and formatted container forms serialize() emits are parsed by the folded JSON::parse, in default and strict mode, to the value python json assigns', 1)
     ctx.rule('C04-R5', 'deep copy: operator=(const JSON&) assigns a fresh empty container, then inserts `new JSON(*child)` for every child; the copy constructor delegates to it', 5)
     ctx.rule('C04-R6', 'equality family: each typed comparator reads the alternative its parameter names (absent -> unordered); std::string arguments are compared over their whole length; the JSON/JSON comparator dispatches each index to the comparator of the same alternative; lists compare element values pairwise then sizes; dicts compare sizes, then every key\'s value', 34)
     u = ctx.unit(repo_unit('JSON.cc'))
@@ -368,6 +369,46 @@ def run(ctx):
                 nonstd = [b for b in range(256) if (emitted_for(b, mval)[0] or b'')[:2] == b'\\x']
                 ctx.check(not nonstd, 'C04-R3', 'STANDARD|no-hex-escapes', esc, 'standard mode never emits \\x', 'standard mode emits the non-standard \\x escape for bytes %s' % [hex(b) for b in nonstd[:4]])
 
+    # ---- R7: the container texts the serializer emits (compact and formatted, empty and nested) are read back
+    # by JSON::parse in both modes with the value python's json assigns
+    with ctx.section('C04-R7', 'C04'):
+        import json as _json
+        ct_bad, ct_und, ct_n = None, None, 0
+        for doc_ in (b'[]', b'{}', b'[[]]', b'[{}]', b'{"a":[]}', b'{"a":{}}', b'[1]', b'[1,2]', b'{"a":1}', b'{"a":1,"b":[true,null]}', b'[[],[]]', b'[\n]', b'{\n}',
+                     b'[\n  1,\n  2\n]', b'{\n  "a": 1\n}', b'{\n  "a": [],\n  "b": {}\n}', b'["x",{"y":[0.5]}]'):
+            for strict_ in (0, 1):
+                if ct_und or ct_bad:
+                    break
+                try:
+                    r_ = PEp.call_with(cptr[0], [_Lit(doc_), len(doc_), strict_])
+                except _Thrown as e_:
+                    ct_bad = 'the text %r (a form serialize() produces) is rejected by JSON::parse in %s mode (%s)' % (doc_.decode(), 'strict' if strict_ else 'default', e_.etype)
+                    continue
+                except Fault as e_:
+                    ct_bad = 'JSON::parse(%r) %s' % (doc_.decode(), e_)
+                    continue
+                except Undecided as e_:
+                    ct_und = str(e_)
+                    continue
+                ct_n += 1
+
+                def _py(o):
+                    if isinstance(o, bytes):
+                        return o.decode('latin1')
+                    if isinstance(o, list):
+                        return [_py(x_) for x_ in o]
+                    if isinstance(o, dict):
+                        return {_py(k_): _py(v_) for k_, v_ in o.items()}
+                    return o
+                got_ = _py(r_.py()) if isinstance(r_, _JV) else r_
+                if got_ != _json.loads(doc_.decode()):
+                    ct_bad = 'the text %r parses in %s mode to %r' % (doc_.decode(), 'strict' if strict_ else 'default', got_)
+        if ct_und:
+            ctx.undecided('C04-R7', 'container-texts|parse-back', P, 'JSON::parse could not be folded on the container texts (%s)' % ct_und)
+        elif ct_bad:
+            ctx.bad('C04-R7', 'container-texts|parse-back', P, ct_bad)
+        else:
+            ctx.ok('C04-R7', 'container-texts|parse-back', P, 'empty, nested, compact and formatted container texts parse back to the reference value in both modes (%d cases)' % ct_n)
     # ---- R2 (evaluation part): every text form `%g` can produce for a double (plus the ".0" the
     # serializer appends to integral-looking ones) is read back by JSON::parse as a float of that value
     with ctx.section('C04-R2', 'C04'):
@@ -836,6 +877,56 @@ def check_compare(ctx, u, alts):
             r = relation(cond, True)
             if r and r[1] == '!=' and {idxvars.get((ref_decl(r[0]) or {}).get('id')), idxvars.get((ref_decl(r[2]) or {}).get('id'))} == {'this.value', 'other.value'} and _is_unordered(then) and not falls_through(then):
                 mismatch_guard = True
+    if not mismatch_guard:
+        # any guard whose truth table over (this index, other index) is "unordered for every differing pair
+        # (int/float pairs may be let through), never for equal indices"
+        from poly import Poly as _PG
+        PG = _PG(main, u)
+
+        class _U(Exception):
+            pass
+
+        def ev_(e, ti, oi, depth=0):
+            e = strip(e)
+            while e is not None and e.get('kind') in ('ImplicitCastExpr', 'ParenExpr', 'ExprWithCleanups') and kids(e):
+                e = strip(kids(e)[0])
+            if e is None or depth > 8:
+                raise _U()
+            if int_value(e) is not None:
+                return int_value(e)
+            k_ = e.get('kind')
+            if k_ == 'DeclRefExpr':
+                w_ = idxvars.get((ref_decl(e) or {}).get('id'))
+                if w_ == 'this.value':
+                    return ti
+                if w_ == 'other.value':
+                    return oi
+                init_ = PG.single(ref_decl(e))
+                if init_ is not None:
+                    return ev_(init_, ti, oi, depth + 1)
+                raise _U()
+            if k_ == 'UnaryOperator' and e.get('opcode') == '!':
+                return int(not ev_(e['inner'][0], ti, oi, depth + 1))
+            if k_ == 'BinaryOperator' and e.get('opcode') in ('==', '!=', '&&', '||', '<', '>', '<=', '>='):
+                a_ = ev_(e['inner'][0], ti, oi, depth + 1)
+                if e['opcode'] == '&&' and not a_:
+                    return 0
+                if e['opcode'] == '||' and a_:
+                    return 1
+                b_ = ev_(e['inner'][1], ti, oi, depth + 1)
+                return int({'==': a_ == b_, '!=': a_ != b_, '&&': bool(a_) and bool(b_), '||': bool(a_) or bool(b_), '<': a_ < b_, '>': a_ > b_, '<=': a_ <= b_, '>=': a_ >= b_}[e['opcode']])
+            raise _U()
+        for s in pre:
+            if s.get('kind') == 'IfStmt':
+                cond, then, els = if_parts(s)
+                if not (_is_unordered(then) and not falls_through(then)):
+                    continue
+                try:
+                    tt = {(ti, oi): ev_(cond, ti, oi) for ti in range(7) for oi in range(7)}
+                except _U:
+                    continue
+                if all((not tt[(ti, oi)]) if ti == oi else (tt[(ti, oi)] or {ti, oi} == {2, 3}) for ti in range(7) for oi in range(7)):
+                    mismatch_guard = True
     ctx.check(mismatch_guard, R, 'operator<=>(JSON)|kind-mismatch-unordered', main, 'different kinds (other than int/float) compare unordered before the switch', 'no `if (this_index != other_index) return unordered` dominates the switch')
     # cross int/float branches
     for s in pre:
